@@ -316,7 +316,10 @@ def families(tier='quick', seed=0):
     oneX = M((K('f'), S('a')))
     listX = M((K('f'), L(S('a*'), S('*b'), S('*c*'))))
     blockX = ('seq', [M((K('f'), S('a')), (K('g'), S('b')))])
-    for xn, X in (('seq', seqX), ('map', mapX), ('one', oneX), ('list', listX), ('seq1block', blockX)):
+    # entries that share fields: the matrix pass tables them inside the identifier
+    tabledX = ('seq', [M((K('f'), S('a*')), (K('g'), S('b*'))), M((K('f'), S('c*')), (K('g'), S('d*'))), M((K('h'), S('x')))])
+    tabled2X = ('seq', [M((K('f'), S('a*')), (K('g'), S('b*'))), M((K('f'), S('c*')), (K('g'), S('d*'))), M((K('h', 'not'), S('x')))])
+    for xn, X in (('seq', seqX), ('map', mapX), ('one', oneX), ('list', listX), ('seq1block', blockX), ('tabled', tabledX), ('part-tabled', tabled2X)):
         add('quant-ident', 'all(%s)' % xn, {'idents': {'X': X}, 'cond': ('all', 'X')})
         for n in (0, 1, 2, 3, 4):
             add('quant-ident', 'of(%s,%d)' % (xn, n), {'idents': {'X': X}, 'cond': ('of', 'X', n)})
@@ -402,6 +405,9 @@ def families(tier='quick', seed=0):
     add('modifier', 'multi-word keys', {'idents': {'A': M((K('Command Line'), S('a*')), (K('Event ID', 'str'), S('4*')))}, 'cond': ('id', 'A')})
     add('modifier', 'all(multi-word key)', {'idents': {'A': M((K('Command Line', 'all'), L(S('a*'), S('*b'))))}, 'cond': ('id', 'A')})
     add('modifier', 'int(multi-word key)', {'idents': {'A': M((K('Event ID', 'int'), ('i', 1)), (K('g'), S('a')))}, 'cond': ('id', 'A')})
+    # the white space between the words of a field name is part of the name
+    add('modifier', 'wide-space key', {'idents': {'A': M((K('a  b'), S('x*')), (K('g'), S('y')))}, 'cond': ('id', 'A')})
+    add('modifier', 'str(wide-space key)', {'idents': {'A': M((K('a  b', 'str'), S('4*')))}, 'cond': ('id', 'A')})
     # a case-sensitive list and its i-prefixed twin on one field
     add('shake', 'list and its i-twin', {'idents': {'A': ('seq', [M((K('f'), L(S('ab*'), S('cd*')))), M((K('f'), L(S('iab*'), S('icd*')))), M((K('g'), S('x')))])}, 'cond': ('id', 'A')})
     add('shake', 'i-twin and list', {'idents': {'A': ('seq', [M((K('f'), L(S('iab*'), S('icd*')))), M((K('f'), L(S('ab*'), S('cd*')))), M((K('g'), S('x')))])}, 'cond': ('id', 'A')})
@@ -456,6 +462,11 @@ def limit_rules():
         '  condition: ' + ' or '.join('I%d' % k for k in range(8)) + '\ntrue_positives: []\ntrue_negatives: []\n'
     out['sequence of regex entries beyond the set size limit'] = 'detection:\n  A:\n' + ''.join("    - x: '%s'\n" % p for p in big) + \
         '  condition: A\ntrue_positives: []\ntrue_negatives: []\n'
+    # more distinct fields in one or-group than there are one-character keys below the surrogate range: the matrix pass
+    # names its columns char::from_u32(index)
+    n = 0xD800 + 4
+    out['or-group over more fields than the matrix pass has column keys'] = 'detection:\n  A:\n' + ''.join('    - f%d: x\n' % i for i in range(n)) + \
+        '    - f0: y\n  condition: A\ntrue_positives: []\ntrue_negatives: []\n'
     return out
 
 
@@ -471,7 +482,8 @@ MUST = {'single/"a\'', 'single/i\'a"', 'single/"',
         'list/a,i?b', 'list/i?ab,c*,id',
         'list-mixed/*,>1', 'list-mixed/>=1,<=5', 'quant-short/all:>=1,<=5', 'modifier/str(f) float constant',
         'regex/i?^\\D+$', 'regex/i?\\Sa', 'modifier/{not(f), not(g), h}',
-        'modifier/multi-word keys', 'modifier/all(multi-word key)', 'modifier/int(multi-word key)'}
+        'modifier/multi-word keys', 'modifier/all(multi-word key)', 'modifier/int(multi-word key)',
+        'modifier/wide-space key', 'modifier/str(wide-space key)', 'quant-ident/all(tabled)', 'quant-ident/of(tabled,2)', 'quant-ident/all(part-tabled)', 'quant-ident/of(part-tabled,2)'}
 
 
 def thin(tpl, quota, rnd):
